@@ -160,6 +160,13 @@ func (gt *gossipTracer) RejectMessage(msg *Message, reason string) {
 	gt.fulfillPromise(msg)
 }
 
+func (gt *gossipTracer) DuplicateMessage(msg *Message) {
+	// The message may be known without ever having been traced as validated
+	// (we published the same ID ourselves), in which case a copy that does
+	// arrive is a duplicate; it still shows the message was delivered to us.
+	gt.fulfillPromise(msg)
+}
+
 func (gt *gossipTracer) ValidateMessage(msg *Message) {
 	// we consider the promise fulfilled as soon as the message begins validation
 	// if it was a case of signature issue it would have been rejected immediately
@@ -173,7 +180,6 @@ func (gt *gossipTracer) Join(topic string)                                {}
 func (gt *gossipTracer) Leave(topic string)                               {}
 func (gt *gossipTracer) Graft(p peer.ID, topic string)                    {}
 func (gt *gossipTracer) Prune(p peer.ID, topic string)                    {}
-func (gt *gossipTracer) DuplicateMessage(msg *Message)                    {}
 func (gt *gossipTracer) RecvRPC(rpc *RPC)                                 {}
 func (gt *gossipTracer) SendRPC(rpc *RPC, p peer.ID)                      {}
 func (gt *gossipTracer) DropRPC(rpc *RPC, p peer.ID)                      {}
